@@ -1,4 +1,4 @@
-import DcmVerif.Props.Source
+import DcmVerif.Props.SourceMeta
 import DcmVerif.Proofs.Key
 /-! Property theorems for C08. Statements only; proofs are by reference to `Proofs/`. -/
 set_option autoImplicit false
